@@ -227,6 +227,11 @@ func ZZC19Step(pre, method, uriIdx, textIdx, text2Idx string) {
 			TextDocument:   VersionedTextDocumentIdentifier{Version: 3, TextDocumentIdentifier: TextDocumentIdentifier{URI: uri}},
 			ContentChanges: []TextDocumentContentChangeEvent{{Text: text}, {Text: text2}}})
 		newText, writes = text2, true
+	case "didChange0":
+		// a change notification that carries no content change: the text stays what it was
+		req = zzRequest("textDocument/didChange", DidChangeTextDocumentParams{
+			TextDocument:   VersionedTextDocumentIdentifier{Version: 4, TextDocumentIdentifier: TextDocumentIdentifier{URI: uri}},
+			ContentChanges: []TextDocumentContentChangeEvent{}})
 	case "hover":
 		req = zzRequest("textDocument/hover", HoverParams{TextDocumentPositionParams: tdp})
 	case "definition":
@@ -248,6 +253,17 @@ func ZZC19Step(pre, method, uriIdx, textIdx, text2Idx string) {
 			zzSameDiagnostics(notes[0].Diagnostics, analysis.CheckSource(newText).Diagnostics, "C19:published-diagnostics-are-the-fresh-analysis-of-the-latest-text")
 		}
 		zzvrt.Assert(resp == nil, "C19:notifications-have-no-result")
+	} else if method == "didChange0" {
+		// nothing changed: the server may stay silent or publish again, but only the
+		// diagnostics of the unchanged text of that document
+		zzvrt.Assert(resp == nil, "C19:notifications-have-no-result")
+		for _, n := range notes {
+			t, open := latest[uri]
+			zzvrt.Assert(n.URI == uri && open, "C19:diagnostics-published-for-the-changed-document")
+			if n.URI == uri && open {
+				zzSameDiagnostics(n.Diagnostics, analysis.CheckSource(t).Diagnostics, "C19:published-diagnostics-are-the-fresh-analysis-of-the-latest-text")
+			}
+		}
 	} else {
 		zzvrt.Assert(len(notes) == 0, "C19:queries-publish-nothing")
 	}
